@@ -4,7 +4,8 @@
    snapshot of values) and is applied verbatim to observations recorded from the
    implementation, and proved of the model in Proofs.v.
    Clause codes (returned on failure, as 100*step + clause):
-     1 a mutually linked pair differs after the operation
+     1 a mutually linked pair differs after the operation (charged to the operation that breaks
+       the equality or creates the link: a pair that already differed before is not charged again)
      2 one-way: after a value-changing assignment on the source (or the creation of the link)
        a direct target differs from the source
      3 an item mutation of the source was not carried over to a direct target that was equal before
@@ -101,6 +102,8 @@ Definition law_step (E : list edge) (before : snap) (o : op) (ob : obs) : list Z
   let '(expected, target) := plain before o in
   let R := reach E' (origins o expected) in
   chk 1 (forallb (fun e => negb (has_edge (snd e, fst e) E')
+                           || (has_edge e E && has_edge (snd e, fst e) E
+                               && negb (oval_eqb (sval before (fst e)) (sval before (snd e))))
                            || oval_eqb (sval after (fst e)) (sval after (snd e))) E')
   ++ chk 2 (match o, target with
             | Assign x n v, Some _ =>
